@@ -1,10 +1,9 @@
 CONSTANTS Devices = {"d1", "d2"}
  Chals = {"ch1", "ch2"}
- Beacons = {"b1", "b2"}
+ Beacons = {"b1"}
  MaxNet = 2
 INIT Init
-NEXT Next
-CONSTRAINT Bound
+NEXT MCNext
 INVARIANT BoundToChallenge
 INVARIANT BoundToCredential
 INVARIANT BoundToBeacon
